@@ -78,6 +78,7 @@ class _RProc:
         self.style = style
         self.frames: list[list] = []  # [body, idx, path_prefix]
         self.last_path = None
+        self.parked_ever = False
 
 
 class Reference:
@@ -99,6 +100,7 @@ class Reference:
         self.events: dict[int, dict] = {}  # pid -> record
         self.exact_overshoot = exact_overshoot
         self.stop_reason = None
+        self.stats: dict[str, int] = {}
 
     # ---- creation ---------------------------------------------------------
     def _new_event(self, spec: dict, t_ns: int, origin: str) -> dict:
@@ -144,8 +146,12 @@ class Reference:
             f = self.futures[name] = _RFuture()
         return f
 
+    def _stat(self, k):
+        self.stats[k] = self.stats.get(k, 0) + 1
+
     def _resolve(self, f: _RFuture, value):
         if f.resolved:
+            self._stat("second_resolves")
             return
         f.resolved = True
         f.value = value
@@ -231,6 +237,14 @@ class Reference:
             elif op == "await":
                 f = self._build_fexpr(stmt["f"])
                 proc.last_path = path
+                proc.parked_ever = True
+                if f.resolved:
+                    self._stat("await_already_resolved")
+                fx = stmt["f"]
+                if isinstance(fx, dict):
+                    self._stat("combinator_awaits")
+                    if any(isinstance(x, dict) for x in (fx.get("any") or fx.get("all"))):
+                        self._stat("nested_combinator_awaits")
                 if f.parked is not None and not f.resolved:
                     raise InvalidProgram("two processes parked on one future")
                 f.parked = proc
@@ -240,6 +254,8 @@ class Reference:
             else:
                 raise ValueError(op)
         # finished
+        if proc.hooks and getattr(proc, "parked_ever", False):
+            self._stat("hooks_on_parked_process")
         self.log.append(("F", self.now, proc.pid))
         out = self._make_events(proc.ret, "ret")
         out += self._run_hooks(proc.hooks)
@@ -319,6 +335,17 @@ class Reference:
 
 def run_reference(program, max_deliveries=100000, **kw) -> Reference:
     return Reference(program, **kw).run(max_deliveries=max_deliveries)
+
+
+def program_is_valid(program) -> bool:
+    """False when the program misuses the API under either end_time reading (see proggen)."""
+    try:
+        run_reference(program)
+        if program.get("end_ns") is not None:
+            run_reference(program, exact_overshoot=True)
+    except InvalidProgram:
+        return False
+    return True
 
 
 # ==========================================================================
@@ -462,9 +489,11 @@ class RealRun:
             def __init__(self, idx):
                 super().__init__(f"e{idx}")
                 self.idx = idx
+                self.handled = 0
 
             def handle_event(self, event):
                 pid = event.context["metadata"]["pid"]
+                self.handled += 1
                 run.log.append(("D", self._clock.now.nanoseconds, event.time.nanoseconds, pid))
                 action = table.get(f"{self.idx}:{event.event_type}") or {"kind": "none"}
                 k = action["kind"]
